@@ -418,6 +418,22 @@ pub mod walkdir {
         pub fn path(&self) -> PathRef<'_> {
             PathRef(&self.path, self.is_file)
         }
+        pub fn into_path(self) -> PathBuf {
+            self.path
+        }
+        pub fn file_name(&self) -> &::std::ffi::OsStr {
+            self.path.file_name().unwrap_or(self.path.as_os_str())
+        }
+        pub fn metadata(&self) -> Result<symrt::env::fs::Metadata, Error> {
+            if self.is_file {
+                symrt::env::fs::metadata(&self.path).map_err(|_| Error)
+            } else {
+                Ok(symrt::env::fs::Metadata::dir())
+            }
+        }
+        pub fn depth(&self) -> usize {
+            usize::from(self.is_file)
+        }
     }
     impl WalkDir {
         pub fn new<P: AsRef<Path>>(p: P) -> Self {
